@@ -8,6 +8,14 @@ stdin  : one JSON document: list of operations
                                          (_testcapi.set_nomemory): MemoryError, or a callback c that is
                                          called once and dropped at once (same net effect on the allocator)
            ["call", c, via, args]          via: "cdata" | "C"
+           ["create", c, sig, mode]        mode "n" (no error value) | "e" (own error value) | "eo" (own error
+                                           value and own onerror handler)
+           ["call", c, via, args, body]    an invocation observed in two steps (events begin ... end): via is
+                                           "raw" | "rawC" (a non-owning function pointer cast, called directly
+                                           or from C: nothing but the table of the worker keeps the callback
+                                           alive); body = {"ops": [operations executed INSIDE c's Python
+                                           function, possibly dropping c itself, creating callbacks that reuse
+                                           its closure, nested calls], "raise": bool (the function then raises)}
 stdout : one JSON line per event (flushed after every line in careful mode, preceded by {"at": i})
 """
 import sys, json, gc, weakref
@@ -53,6 +61,31 @@ def main():
     BTYPES = dict((k, ffi.typeof(v.replace("(", "(*)(", 1))) for k, v in SIGS.items())
     backend_callback = ffi._backend.callback
     RAN, RECV, RETD = [], [], []
+    PEND, LOG, HLOG, DEPTH = [], [], [], [0]
+
+    class Sink(object):
+        def write(self, x):
+            pass
+
+        def flush(self):
+            pass
+    sink = Sink()
+
+    class Boom(Exception):
+        pass
+
+    def errvalue(c, s, mode):
+        if s == "v":
+            return None
+        if mode == "n":
+            return 0.0 if s == "d" else 0
+        if s == "i":
+            return -1 - c % 100000
+        if s == "d":
+            return float(-2 - c % 1000)
+        if s == "q":
+            return -(2 ** 40) - c
+        return -3 - c % 20000
 
     def result(c, s, args):
         if s == "i":
@@ -71,8 +104,30 @@ def main():
             RECV.append(args)
             r = result(c, s, args)
             RETD.append(r)
+            if not PEND:
+                return r
+            body = PEND.pop()
+            d = DEPTH[0]
+            rec = [d, c, r]
+            LOG.append(rec)
+            emit({"ev": "begin", "c": body["c"], "via": body["via"], "s": body["s"], "ran": [c],
+                  "sent": body["sent"], "recv": [enc(a) for a in args]})
+            DEPTH[0] = d + 1
+            try:
+                for op in body["ops"]:
+                    run_op(op)
+            finally:
+                DEPTH[0] = d
+            if body["raise"]:
+                rec[2] = Boom
+                raise Boom(c)
             return r
         return fn
+
+    def make_onerror(c):
+        def onerror(exc, val, tb):
+            HLOG.append((DEPTH[0], c))
+        return onerror
 
     cbs, sigs, cyc = {}, {}, {}
 
@@ -81,15 +136,20 @@ def main():
         if careful:
             out.flush()
 
-    for opi, op in enumerate(ops):
-        if careful:
-            emit({"at": opi})
+    def run_op(op):
         kind = op[0]
         if kind == "create":
             c, s = op[1], op[2]
-            cb = ffi.callback(SIGS[s], make(c, s))
+            mode = op[3] if len(op) > 3 else "n"
+            if mode == "n":
+                cb = ffi.callback(SIGS[s], make(c, s))
+            elif mode == "e" or s == "v":
+                cb = backend_callback(BTYPES[s], make(c, s), errvalue(c, s, mode))
+            else:
+                cb = backend_callback(BTYPES[s], make(c, s), errvalue(c, s, mode), make_onerror(c))
             cbs[c], sigs[c] = cb, s
-            emit({"ev": "create", "c": c, "s": s, "addr": int(ffi.cast("uintptr_t", cb))})
+            emit({"ev": "create", "c": c, "s": s, "addr": int(ffi.cast("uintptr_t", cb)),
+                  "errv": enc(errvalue(c, s, mode)), "oe": mode == "eo" and s != "v"})
             del cb          # the only reference is cbs[c]: "drop" frees it at once
         elif kind == "createfail":
             try:
@@ -102,7 +162,7 @@ def main():
             c, s, n = op[1], op[2], op[3]
             if set_nomemory is None:
                 emit({"ev": "skipped", "what": "no _testcapi.set_nomemory"})
-                continue
+                return
             fn, bt = make(c, s), BTYPES[s]
             cb = exc = None
             set_nomemory(n, n + 1)               # exactly one allocation fails
@@ -164,6 +224,41 @@ def main():
             for c in dead:
                 del cyc[c]
             emit({"ev": "gc", "dropped": dead})
+        elif kind == "call" and len(op) > 4:
+            c, via, args, body = op[1], op[2], op[3], op[4]
+            s = sigs[c]
+            if s == "d":
+                args = [float(a) for a in args]
+            sent = [enc(a) for a in args]
+            raw = ffi.cast(BTYPES[s], cbs[c])        # non-owning: c may be dropped while it runs
+            d = DEPTH[0]
+            n0, h0, p0 = len(LOG), len(HLOG), len(PEND)
+            PEND.append({"c": c, "via": via, "s": s, "sent": sent, "ops": body["ops"], "raise": body["raise"]})
+            exc = ""
+            saved = sys.stderr
+            sys.stderr = sink                        # cffi prints the traceback of a raising callback
+            try:
+                try:
+                    if via == "raw":
+                        ret = raw(*args)
+                    else:
+                        ret = getattr(helper, "cv29_call_" + s)(raw, *args)
+                finally:
+                    sys.stderr = saved
+            except Exception as e:
+                ret, exc = None, type(e).__name__
+            del raw
+            mine = [r for r in LOG[n0:] if r[0] == d]
+            if len(PEND) > p0:                       # no function took the body: nothing ran
+                del PEND[p0:]
+                emit({"ev": "begin", "c": c, "via": via, "s": s, "ran": [], "sent": sent, "recv": [["none", 0]]})
+            raised = bool(mine) and mine[0][2] is Boom
+            emit({"ev": "end", "c": c, "via": via, "s": s, "how": "raise" if raised else "return",
+                  "herr": [h[1] for h in HLOG[h0:] if h[0] == d],
+                  "ret": enc(ret) if not exc else ["exc", 0], "exc": exc,
+                  "exp": enc(mine[0][2]) if mine and not raised else ["none", 0]})
+            if d == 0:
+                del LOG[:], HLOG[:]
         elif kind == "call":
             c, via, args = op[1], op[2], op[3]
             s = sigs[c]
@@ -184,7 +279,12 @@ def main():
                   "exc": exc})
         else:
             emit({"ev": "harness-error", "what": "unknown op %r" % (op,)})
-    emit({"ev": "end"})
+
+    for opi, op in enumerate(ops):
+        if careful:
+            emit({"at": opi})
+        run_op(op)
+    emit({"ev": "end-of-session"})
     out.flush()
 
 
